@@ -52,8 +52,11 @@ Defs == [
   TD3 |-> [flavour |-> "typeddict_inh", module |-> "m1", py |-> "TD3", fields |-> << <<"x", P("int"), FALSE>>, <<"y", P("str"), TRUE>> >>],
   \* one member type reached on two paths, the second time behind a NewType / through the same alias object
   W1  |-> [flavour |-> "dataclass",    module |-> "m1", py |-> "W1",  fields |-> << <<"a", Cls("D1"), FALSE>>, <<"b", Wrap("newtype", Cls("D1")), FALSE>> >>],
-  W2  |-> [flavour |-> "dataclass",    module |-> "m1", py |-> "W2",  fields |-> << <<"a", Wrap("alias", Coll("list", "builtin", P("int"))), FALSE>>,
-                                                                                     <<"b", Wrap("alias", Coll("list", "builtin", P("int"))), FALSE>> >>],
+  W2  |-> [flavour |-> "dataclass",    module |-> "m1", py |-> "W2",  fields |-> << <<"a", Wrap("alias", Coll("list", "builtin", P("Decimal"))), FALSE>>,
+                                                                                     <<"b", Wrap("alias", Coll("list", "builtin", P("Decimal"))), FALSE>> >>],
+  \* two classes holding the same alias object: whichever is built second meets the alias as a revisit
+  A1  |-> [flavour |-> "dataclass",    module |-> "m1", py |-> "A1",  fields |-> << <<"bag", Wrap("alias", Coll("list", "builtin", P("Decimal"))), FALSE>> >>],
+  A2  |-> [flavour |-> "dataclass",    module |-> "m1", py |-> "A2",  fields |-> << <<"bag", Wrap("alias", Coll("list", "builtin", P("Decimal"))), FALSE>>, <<"n", P("int"), FALSE>> >>],
   \* a second recursive class with the Python name of R1, in another module, with other field types
   R1b |-> [flavour |-> "dataclass",    module |-> "m2", py |-> "R1",  fields |-> << <<"v", P("str"), FALSE>>, <<"nxt", Opt(Cls("R1b")), TRUE>> >>]
 ]
@@ -126,12 +129,14 @@ NoneMiddle == {Un("Union", <<a, NoneT, b>>) : a \in {P("str"), P("Decimal"), P("
 Twice(w) == {Tup(<<w, Coll("list", "builtin", w)>>), Tup(<<Coll("list", "builtin", w), w>>), Tup(<<w, w>>),
              Map("builtin", P("str"), Tup(<<w, w>>))}
 TwicePaths == UNION {Twice(w) : w \in {Wrap("newtype", Cls("D1")), Wrap("alias", Cls("D1")), Wrap("salias", Cls("D1")),
-                                       Wrap("alias", Coll("list", "builtin", P("int"))), Wrap("alias", Opt(P("date"))),
+                                       Wrap("alias", Coll("list", "builtin", P("int"))), Wrap("alias", Coll("list", "builtin", P("date"))),
+                                       Wrap("alias", Opt(P("date"))),
                                        Wrap("newtype", P("int"))}}
 NameClash == {Tup(<<Cls("D1"), Cls("D1b"), Cls("D1")>>), Tup(<<Cls("D1b"), Cls("D1"), Cls("D1b")>>),
               Tup(<<Cls("R1"), Cls("R1b")>>), Tup(<<Cls("R1b"), Cls("R1")>>),
               Map("builtin", P("str"), Tup(<<Cls("D1b"), Cls("D1")>>)),
-              Tup(<<Coll("list", "builtin", Cls("R1b")), Cls("R1"), Cls("R1b")>>)}
+              Tup(<<Coll("list", "builtin", Cls("R1b")), Cls("R1"), Cls("R1b")>>),
+              Tup(<<Cls("A1"), Cls("A2")>>), Tup(<<Cls("A2"), Cls("A1")>>)}
 Adversarial == NoneMiddle \cup TwicePaths \cup NameClash
 
 Universe == Depth2 \cup WithWrappers \cup Adversarial
